@@ -21,11 +21,11 @@ def main():
                 ok += 1
             else:
                 print("  ", ob["name"], ob["status"], ob.get("solver"), ob.get("seconds"))
-                print("      detail:", json.dumps(ob.get("detail"), default=str)[:1500])
-                print("      model:", ob.get("model"))
+                print("      detail:", json.dumps(ob.get("detail"), default=str)[:int(__import__("os").environ.get("W", "300"))])
+                print("      model:", ob.get("model"), "solver_detail:", str(ob.get("solver_detail"))[:300])
                 if ob["status"] == "refuted":
                     r, path = replay(C, ob.get("model"), "adhoc")
-                    print("      replay:", json.dumps(r, default=str)[:1500])
+                    print("      replay: reproduced=%s why=%s err=%s" % (r.get("reproduced"), r.get("why"), str(r.get("error"))[-400:]))
         print("%-70s %d obligations" % (C.name, len(res)), [o["status"] for o in res if o["status"] != "discharged"][:3])
     print("total", tot, "discharged", ok, "%.1fs" % (time.time() - t0))
 main()
